@@ -62,11 +62,23 @@ def print_items(items: list) -> str:
             out.append("{% block " + name + (" required" if req else "") + " %}" + print_items(body) + "{% endblock" + (" " + endname if endname else "") + " %}")
         elif k == "for":
             out.append("{% for i in (1.." + str(it[1]) + ") %}" + print_items(it[2]) + "{% endfor %}")
+        elif k == "if" and it[1].startswith("@"):
+            # other block tags whose body is rendered exactly once: for R-inherit they are an `if true`, for the engine they are other
+            # node classes whose children must be searched for blocks just the same
+            a, b = WRAPPERS[it[1]]
+            out.append(a + print_items(it[2]) + b)
         elif k == "if":
             out.append("{% if " + it[1] + " %}" + print_items(it[2]) + "{% endif %}")
         else:  # pragma: no cover
             raise ValueError(k)
     return "".join(out)
+
+
+WRAPPERS = {
+    "@with": ("{% with w: 1 %}", "{% endwith %}"), "@case": ("{% case 1 %}{% when 1 %}", "{% endcase %}"), "@unless": ("{% unless false %}", "{% endunless %}"),
+    "@elsif": ("{% if false %}{% elsif true %}", "{% endif %}"), "@else": ("{% if false %}{% else %}", "{% endif %}"), "@forelse": ("{% for z in (1..0) %}{% else %}", "{% endfor %}"),
+    "@case-else": ("{% case 1 %}{% when 2 %}{% else %}", "{% endcase %}"), "@unless-else": ("{% unless true %}{% else %}", "{% endunless %}"),
+}
 
 
 def print_template(t: dict[str, Any]) -> str:
@@ -94,7 +106,7 @@ def walk_blocks(items: list):
 
 
 def truthy(cond: str, data: dict[str, Any]) -> bool:
-    if cond == "true":
+    if cond == "true" or cond.startswith("@"):
         return True
     if cond == "false":
         return False
@@ -102,7 +114,7 @@ def truthy(cond: str, data: dict[str, Any]) -> bool:
     return v is not None and v is not False
 
 
-def model(case: dict[str, Any]):
+def _model(case: dict[str, Any]):
     """('ok', text) | ('err', 'RequiredBlockError') | ('reject', why) | None (unspecified), plus feature counts."""
     tpls = case["templates"]
     data = case["data"]
@@ -215,6 +227,15 @@ def model(case: dict[str, Any]):
 
 # ------------------------------------------------------------------------------ execution
 
+def model(case: dict[str, Any]):
+    """R-inherit, plus the way the chain is entered: directly, or through an include tag of an ordinary template (the chain is then followed
+    from the included template - the one that contains the extends tag - and the includer goes on after it)."""
+    exp, feats = _model(case)
+    if case.get("entry") == "include" and exp is not None and exp[0] == "ok":
+        exp = ("ok", "<<" + exp[1] + ">>")
+    return exp, feats
+
+
 class LoadBudgetExceeded(BaseException):
     """Logical clock: one render of a chain of <= 4 templates asked the loader for more than LOAD_BUDGET sources."""
 
@@ -250,12 +271,17 @@ def env():
 
 def execute(case: dict[str, Any], use_async: bool):
     e = env()
-    e.loader = CountingLoader({name: print_template(t) for name, t in case["templates"].items()})
+    srcs = {name: print_template(t) for name, t in case["templates"].items()}
+    entry = case["leaf"]
+    if case.get("entry") == "include":
+        srcs["__includer"] = "<<{% include '" + case["leaf"] + "' %}>>"
+        entry = "__includer"
+    e.loader = CountingLoader(srcs)
     try:
         if use_async:
-            o = drv.call_async(e.get_template_async, case["leaf"])
+            o = drv.call_async(e.get_template_async, entry)
         else:
-            o = drv.call(e.get_template, case["leaf"])
+            o = drv.call(e.get_template, entry)
         if not o.ok:
             return o
         return drv.render_async(o.value, case["data"]) if use_async else drv.render(o.value, case["data"])
@@ -531,7 +557,7 @@ def gen_items(rng, names: list[str], depth: int, in_block: bool, in_for: bool, u
         elif r < 0.90 and depth < 3:
             items.append(["for", rng.choice([0, 1, 2, 2, 3]), gen_items(rng, names, depth + 1, in_block, True, used, dup_ok)])
         elif depth < 3:
-            items.append(["if", rng.choice(["true", "false", "g1", "fl", "nope", "g2"]), gen_items(rng, names, depth + 1, in_block, in_for, used, dup_ok)])
+            items.append(["if", rng.choice(["true", "false", "g1", "fl", "nope", "g2"] + (sorted(WRAPPERS) if rng.random() < 0.4 else [])), gen_items(rng, names, depth + 1, in_block, in_for, used, dup_ok)])
         else:
             items.append(["text", ""])
     # loopvar items must sit directly in a for body (the model binds i lexically); strip others
@@ -577,7 +603,11 @@ def gen_chain(rng) -> dict[str, Any]:
             b[4] = rng.choice([x for x in ["a", "b", "c", "d", "zz"] if x != b[1]])
     mark(templates)
     data = {"g1": rng.choice(["G1", 7, True]), "g2": rng.choice(["", "G2", 0]), "fl": rng.choice([False, None])}
-    return {"kind": "sampled", "templates": templates, "leaf": tnames[0], "data": data, "async": rng.random() < 0.3}
+    c = {"kind": "sampled", "templates": templates, "leaf": tnames[0], "data": data, "async": rng.random() < 0.3}
+    if rng.random() < 0.12:
+        c["entry"] = "include"
+        c["async"] = rng.random() < 0.6
+    return c
 
 
 def cases(ctx: core.Ctx):
